@@ -35,6 +35,35 @@ func normDecl(src string) string {
 	return strings.TrimSpace(strings.TrimPrefix(string(b), "package p\n"))
 }
 
+// stripDirectives removes go:generate / build directive lines (which must be absent from the output) from a
+// gofmt-normalised declaration text, together with the bare "//" separator gofmt puts in front of them.
+func stripDirectives(txt string) string {
+	lines := strings.Split(txt, "\n")
+	var out []string
+	for _, l := range lines {
+		if reBuildOrGenerate.MatchString(strings.TrimSpace(l)) {
+			// drop a separator line that only existed to set the directive apart
+			if n := len(out); n > 0 && strings.TrimSpace(out[n-1]) == "//" {
+				out = out[:n-1]
+			}
+			continue
+		}
+		out = append(out, l)
+	}
+	return strings.Join(out, "\n")
+}
+
+// leadingComment splits a declaration text into its leading // lines and the rest.
+func leadingComment(txt string) (comment []string, rest string) {
+	lines := strings.Split(txt, "\n")
+	i := 0
+	for i < len(lines) && strings.HasPrefix(strings.TrimSpace(lines[i]), "//") {
+		comment = append(comment, strings.TrimSpace(lines[i]))
+		i++
+	}
+	return comment, strings.Join(lines[i:], "\n")
+}
+
 func declSlice(fset *token.FileSet, src string, d ast.Decl) string {
 	start := d.Pos()
 	switch v := d.(type) {
@@ -115,7 +144,7 @@ func (e *Env) judgeC11(o *scen.Outcome, t *report.Tally, feat string, sampled *a
 				continue
 			}
 		}
-		want = append(want, c11Decl{Text: normDecl(declSlice(sfset, setupSrc, d))})
+		want = append(want, c11Decl{Text: stripDirectives(normDecl(declSlice(sfset, setupSrc, d)))})
 	}
 	dontCare := map[string]bool{}
 	for _, cg := range sf.Comments {
@@ -174,6 +203,32 @@ func (e *Env) judgeC11(o *scen.Outcome, t *report.Tally, feat string, sampled *a
 		return out
 	}
 	w, g := render(want), render(gotC)
+	// a doc comment from which a directive line was removed may come out detached from its declaration (a blank
+	// line where the directive was): recognise exactly that and give it its own cause key
+	detached := false
+	if len(w) == len(g) {
+		for i := range w {
+			if w[i] == g[i] {
+				continue
+			}
+			wc, wr := leadingComment(w[i])
+			if len(wc) > 0 && wr == g[i] {
+				all := true
+				for _, l := range wc {
+					if gotCommentsEarly(of, l) == 0 {
+						all = false
+					}
+				}
+				if all && strings.Contains(normDecl(declSlice(sfset, setupSrc, nonImportDecl(sf, i))), "go:generate") {
+					detached = true
+					w[i] = g[i]
+				}
+			}
+		}
+	}
+	if detached {
+		fs = append(fs, report.Finding{Key: "C11|doc-comment-detached-by-directive-removal", What: "a doc comment that contained a go:generate line keeps its text but is no longer attached to its declaration (a blank line is left where the directive was)"})
+	}
 	if strings.Join(w, "\n---\n") != strings.Join(g, "\n---\n") {
 		// find the first difference for the message
 		i := 0
@@ -356,4 +411,32 @@ func init() {
 			return e.judgeC11(o, t, layoutDevKey(o.Cell.Meta.(layoutMeta).D), &sampled)
 		})
 	})
+}
+
+// gotCommentsEarly counts the comments of f whose text is txt.
+func gotCommentsEarly(f *ast.File, txt string) int {
+	n := 0
+	for _, cg := range f.Comments {
+		for _, c := range cg.List {
+			if c.Text == txt {
+				n++
+			}
+		}
+	}
+	return n
+}
+
+// nonImportDecl returns the i-th non-import declaration of f.
+func nonImportDecl(f *ast.File, i int) ast.Decl {
+	k := 0
+	for _, d := range f.Decls {
+		if isImportDecl(d) {
+			continue
+		}
+		if k == i {
+			return d
+		}
+		k++
+	}
+	return f.Decls[len(f.Decls)-1]
 }
